@@ -153,6 +153,10 @@ func (x *fx) eval(e *Expr, env *specEnv) *Val {
 		if v := env.look(e.Name); v != nil {
 			return v
 		}
+		// ghost state variable
+		if gv, ok := x.g.ghosts[e.Name]; ok {
+			return x.ghostRead(gv, env.mem)
+		}
 		// package-level constant
 		if env.pkg != nil {
 			if obj := env.pkg.Scope().Lookup(e.Name); obj != nil {
@@ -987,4 +991,27 @@ func (x *fx) pureGoFunc(fo *types.Func, args []*Expr, env *specEnv) *Val {
 	}
 	fv := &Val{T: sig, S: fmt.Sprint(x.g.funcIDByName(fo.FullName()))}
 	return x.pureFnCall(fv, sig, avs)
+}
+
+func (x *fx) ghostMem(gv *GhostVar) (string, types.Type) {
+	name := "$g." + gv.Name
+	var t types.Type
+	switch gv.Type {
+	case "bool":
+		t = tBool
+	case "int":
+		t = tInt
+	default:
+		t = x.parseTypeString(gv.Type, x.g.typesPkg(gv.Pkg))
+	}
+	if _, ok := x.memSort[name]; !ok {
+		x.memSort[name] = x.sortOf(t)
+		x.memType[name] = t
+	}
+	return name, t
+}
+
+func (x *fx) ghostRead(gv *GhostVar, m *memNode) *Val {
+	name, t := x.ghostMem(gv)
+	return &Val{T: t, S: x.resolve(m, name)}
 }
